@@ -780,6 +780,7 @@ func implC03(h caseHead, raw []byte) map[string]any {
 type c16Head struct {
 	Text  string `json:"text"`
 	Canon string `json:"canon"`
+	Kind  string `json:"kind"`
 }
 
 func implC16(h caseHead, raw []byte) (res map[string]any) {
@@ -807,6 +808,10 @@ func implC16(h caseHead, raw []byte) (res map[string]any) {
 		res["asKey"] = site("      " + yq(ch.Text) + ":\n        minCount: 1\n")
 		res["asComparison"] = site("      ex.p0:\n        lessThanProperty: " + yq(ch.Text) + "\n")
 		// ... and deeper in a formula: in the else part of a conditional, under a nested constraint, in an operand of `or`
+		// (for every sentence and fixed string, and for one mutation in eight: the exhaustive tier has millions of mutations)
+		if (ch.Kind == "mutation" || ch.Kind == "fixed-mut") && h.Id%8 != 0 {
+			goto parse
+		}
 		deep := func(body string) (verdict string) {
 			verdict = "PANIC"
 			defer func() { recover() }()
@@ -827,6 +832,7 @@ func implC16(h caseHead, raw []byte) (res map[string]any) {
 		res["asOrOperand"] = deep("    or:\n      -\n" + ok("        ") + "      -\n" + pc("        "))
 		res["asNestedKey"] = deep("    propertyConstraints:\n      ex.p1:\n        nested:\n" + pc("          "))
 	}
+parse:
 	if ch.Canon != "" {
 		if dc, err := verifhook.ParsePath(ch.Canon); err != nil {
 			res["canonResult"] = "REJECT"
